@@ -7,7 +7,7 @@
    table (compile-time constants) and whether the code is inside a matrix block.
    No proofs here. *)
 From Coq Require Import ZArith String List Bool PrimFloat.
-From Bardolph Require Import Base.PyFloat Gen.Codes Time.TimeSpec Time.TimePattern
+From Bardolph Require Import Base.PyFloat Gen.Codes Time.TimeSpec Time.TimeCore
   Lang.Value Lang.Instr Lang.Loader Lang.Regs Lang.Builtins Lang.Syntax Lang.Sem.
 Open Scope string_scope.
 Open Scope list_scope.
